@@ -99,5 +99,12 @@ known("C06", "separated-tags/atomic:words",
       "family in the wrapped result - also one the author wrote: reformat_text('a {% x %} {% y %} b') -> 'a {% x %}{% y %} b' (same for comments, variables). Not repaired: the inserted space "
       "would have to be distinguishable from an authored one across the splitter, the wrapper and the joiner.")
 
+# ---------------------------------------------------------------- known: C18
+known("C18", "gitignore/pattern-with-slash-vs-basename",
+      "the traversal hands pathspec only base names (file name, directory name + '/'), never the path relative to the .gitignore's directory, and combines nested .gitignore files with any(): every pattern that git "
+      "anchors to a path (leading '/', or a '/' in the middle: 'docs/*.md', '/a.md', 'a/**/b', '*/x') disagrees with git in one direction or the other; e.g. root .gitignore 'docs/*.md' never hides docs/d.md, "
+      "and '/a' hides b/a/b.md. Found by z3 on formulas built from the traced match_file calls, every model confirmed with `git check-ignore`. Not repaired: needs the spec chain to carry each .gitignore's directory "
+      "and git's deepest-file-wins combination - a rewrite of _walk_directory/_is_dir_excluded/_get_gitignore_chain rather than a small patch.")
+
 json.dump({"_comment": "Genuine defects of jlevy/flowmark found by these checks. status=known: recorded, not repaired (matched by (property, key); a key names an obligation and a narrowly described mechanism or skeleton, never a property alone). status=fixed: repaired by the named fix: commit in /repo; suppresses nothing.", "findings": F}, open("/verif/known_findings.json", "w"), indent=1)
 print(len(F), "entries")
